@@ -119,6 +119,18 @@ def make_coq(clean=False, timeout=3000):
 _coq_counter = [0]
 
 
+def _big_stack():
+    import resource
+    try:
+        resource.setrlimit(resource.RLIMIT_STACK, (resource.RLIM_INFINITY, resource.RLIM_INFINITY))
+    except (ValueError, OSError):
+        try:
+            soft, hard = resource.getrlimit(resource.RLIMIT_STACK)
+            resource.setrlimit(resource.RLIMIT_STACK, (hard, hard))
+        except (ValueError, OSError):
+            pass
+
+
 def coq_eval(imports, defs, exprs_type, exprs, timeout=1800, shard=400, label="cases"):
     """Evaluate, inside Coq with vm_compute, [f c] for every c in exprs, where the
     Gallina function text `defs` defines `run_case : exprs_type -> str`.
@@ -144,7 +156,7 @@ def coq_eval(imports, defs, exprs_type, exprs, timeout=1800, shard=400, label="c
         fo = open(path[:-2] + ".out", "wb")
         fe = open(path[:-2] + ".err", "wb")
         p = subprocess.Popen(["coqc", "-Q", os.path.join(COQ, "theories"), "GoFlags", path],
-                             cwd=tmp, stdout=fo, stderr=fe)
+                             cwd=tmp, stdout=fo, stderr=fe, preexec_fn=_big_stack)
         fo.close()
         fe.close()
         return (k, p, path, time.time())
